@@ -90,12 +90,13 @@ class Failpoint:
             return fp.orig(bdd)
         _b._request_reordering = hook
 
-        def reorder(bdd, order=None):
+        def reorder(bdd, order=None, *args, **kw):
             # the reordering that serves a request: sifting, and then
             # (hostile outcome, every other fault point) a further
             # arbitrary permutation - whatever order a reordering ends
             # with, the retried operation must give the same function
-            fp.orig_reorder(bdd, order)
+            # (further arguments, if the library grows any, pass through)
+            fp.orig_reorder(bdd, order, *args, **kw)
             if order is None and fp.permute is not None and \
                     bdd._last_len is None and fp.fired:
                 names = list(bdd.vars)
@@ -592,9 +593,9 @@ def natural(ctx, spec):
     reorders = [0]
     orig = _b.reorder
 
-    def counting_reorder(bdd, order=None):
+    def counting_reorder(bdd, order=None, *args, **kw):
         reorders[0] += 1
-        return orig(bdd, order)
+        return orig(bdd, order, *args, **kw)
     _b.reorder = counting_reorder
     try:
         if spec['starts']:
